@@ -237,47 +237,82 @@ func (c *Ctx) codec() *codecTables {
 			reg := region(fn, b.Succs[0])
 			type rec struct {
 				pos token.Pos
+				sub token.Pos
 				tok string
 			}
 			var recs []rec
-			for rb := range reg {
-				loop := ""
-				if inLoop(rb) {
-					loop = "loop:"
-				}
-				for _, ins := range rb.Instrs {
-					call, ok := ins.(*ssa.Call)
-					if !ok {
-						continue
-					}
-					switch callee(call) {
-					case "(desync.reader).ReadUint64":
-						recs = append(recs, rec{call.Pos(), loop + storedField(call, 0)})
-					case "(desync.reader).ReadID":
-						recs = append(recs, rec{call.Pos(), loop + "id:" + storedField(call, 0)})
-					case "(*desync.FormatDecoder).readString":
-						recs = append(recs, rec{call.Pos(), loop + "str:" + storedField(call, 0)})
-					case "(*desync.FormatDecoder).readBytes":
-						recs = append(recs, rec{call.Pos(), loop + "bytes:" + storedField(call, 0)})
-					case "io.LimitReader":
-						recs = append(recs, rec{call.Pos(), loop + "stream:" + storedField(call, 0)})
-					case "io.ReadFull":
-						// a buffer filled from the input and stored (as string or bytes) into a field
-						buf := stripSlices(call.Call.Args[1])
-						if mi, ok := buf.(*ssa.MakeInterface); ok {
-							buf = stripSlices(mi.X)
+			// collect walks a set of blocks; a call of a new helper is descended into (its reads happen
+			// at the call site: same loop context, ordered at the call's position); reads inside a loop
+			// with a small constant trip count ("for skip := 0; skip < 2; skip++") are counted that
+			// many times instead of being marked as a data-dependent loop.
+			var collect func(blocks map[*ssa.BasicBlock]bool, outerLoop string, outerTimes int, base token.Pos, depth int)
+			collect = func(blocks map[*ssa.BasicBlock]bool, outerLoop string, outerTimes int, base token.Pos, depth int) {
+				for rb := range blocks {
+					loop, times := outerLoop, outerTimes
+					if inLoop(rb) {
+						if k := constTrips(rb); k > 0 && k <= 8 {
+							times *= k
+						} else {
+							loop = "loop:"
 						}
-						if f, isStr := storedFieldOfValue(buf); f != "" {
-							kind := "bytes:"
-							if isStr {
-								kind = "str:"
+					}
+					for _, ins := range rb.Instrs {
+						call, ok := ins.(*ssa.Call)
+						if !ok {
+							continue
+						}
+						pos := call.Pos()
+						if base.IsValid() {
+							pos = base // inside a helper: ordered where the helper is called
+						}
+						add := func(tok string) {
+							for k := 0; k < times; k++ {
+								recs = append(recs, rec{pos, call.Pos(), loop + tok})
 							}
-							recs = append(recs, rec{call.Pos(), loop + kind + f})
+						}
+						if h := call.Call.StaticCallee(); h != nil && newHelpers[h] && h.Blocks != nil && depth < 3 {
+							hb := map[*ssa.BasicBlock]bool{}
+							for _, x := range h.Blocks {
+								hb[x] = true
+							}
+							collect(hb, loop, times, pos, depth+1)
+							continue
+						}
+						switch callee(call) {
+						case "(desync.reader).ReadUint64":
+							add(storedField(call, 0))
+						case "(desync.reader).ReadID":
+							add("id:" + storedField(call, 0))
+						case "(*desync.FormatDecoder).readString":
+							add("str:" + storedField(call, 0))
+						case "(*desync.FormatDecoder).readBytes":
+							add("bytes:" + storedField(call, 0))
+						case "io.LimitReader":
+							add("stream:" + storedField(call, 0))
+						case "io.ReadFull":
+							// a buffer filled from the input and stored (as string or bytes) into a field
+							buf := stripSlices(call.Call.Args[1])
+							if mi, ok := buf.(*ssa.MakeInterface); ok {
+								buf = stripSlices(mi.X)
+							}
+							if f, isStr := storedFieldOfValue(buf); f != "" {
+								kind := "bytes:"
+								if isStr {
+									kind = "str:"
+								}
+								add(kind + f)
+							}
 						}
 					}
 				}
 			}
-			sort.Slice(recs, func(i, j int) bool { return recs[i].pos < recs[j].pos })
+			collect(reg, "", 1, token.NoPos, 0)
+			sort.SliceStable(recs, func(i, j int) bool {
+				if recs[i].pos != recs[j].pos {
+					return recs[i].pos < recs[j].pos
+				}
+				return recs[i].sub < recs[j].sub
+			})
 			var toks []string
 			for _, r := range recs {
 				toks = append(toks, r.tok)
@@ -488,4 +523,65 @@ func (c *Ctx) dumpCodec() string {
 		fmt.Fprintf(&sb, "%s\n  enc %v\n  dec %v\n", n, t.enc[n], t.dec[n])
 	}
 	return sb.String()
+}
+
+// constTrips: if block b lies in a counting loop "for i := 0; i < K; i++" with a constant K,
+// the trip count K; otherwise 0.
+func constTrips(b *ssa.BasicBlock) int {
+	fn := b.Parent()
+	for _, hb := range fn.Blocks {
+		iff := lastIf(hb)
+		if iff == nil {
+			continue
+		}
+		cm, truth, ok := cmpOf(iff.Cond)
+		if !ok || cm.op != token.LSS || !truth {
+			continue
+		}
+		k, isK := cm.y.(*ssa.Const)
+		if !isK || k.Value == nil {
+			continue
+		}
+		// counter: phi(0, phi+1) or its increment
+		var phi *ssa.Phi
+		switch x := cm.x.(type) {
+		case *ssa.Phi:
+			phi = x
+		case *ssa.BinOp:
+			if p, ok := x.X.(*ssa.Phi); ok && x.Op == token.ADD {
+				phi = p
+			}
+		}
+		if phi == nil {
+			continue
+		}
+		zero, inc := false, false
+		start := int64(0)
+		for _, e := range phi.Edges {
+			if c, ok := e.(*ssa.Const); ok && c.Value != nil {
+				zero = true
+				start = c.Int64()
+			} else if bo, ok := e.(*ssa.BinOp); ok && bo.Op == token.ADD && bo.X == ssa.Value(phi) {
+				if c, ok := bo.Y.(*ssa.Const); ok && c.Int64() == 1 {
+					inc = true
+				}
+			}
+		}
+		if !zero || !inc {
+			continue
+		}
+		body := hb.Succs[0]
+		if !(body == b || reachableFrom(body, map[edge]bool{{hb, hb.Succs[1]}: true})[b]) || !reachableFrom(b, nil)[hb] {
+			continue
+		}
+		// "for range K" style: phi starts at -1 and the incremented value is compared
+		n := k.Int64() - start
+		if _, isInc := cm.x.(*ssa.BinOp); isInc {
+			n = k.Int64() - (start + 1)
+		}
+		if n > 0 && n < 64 {
+			return int(n)
+		}
+	}
+	return 0
 }
